@@ -11,6 +11,7 @@ import (
 	"net"
 	"os"
 	"sort"
+	"strings"
 	"sync"
 	"time"
 
@@ -214,13 +215,91 @@ func runScript(s *scriptT, seed int) obsT {
 
 func (h *hubStandIn) arrivalsNow() int { h.mu.Lock(); defer h.mu.Unlock(); return h.arrivals }
 
+// fuzzResolver feeds the manager's resolver callback with awkward inputs (C08): nil and empty TXT maps, missing / empty /
+// oversized / binary values, nil and odd address lists, odd ports, removes of unknown services. Every call runs under
+// recover and a deadline; the result is the list of inputs that made the library panic or hang.
+func fuzzResolver(seed, rounds int) []string {
+	var bad []string
+	m := mdns.NewMDNS(ownSki, "brand", "model", "type", "serial", []api.DeviceCategoryType{1}, "shipid", "service", 4711, nil, mdns.MdnsProviderSelectionAll)
+	hubS := &hubStandIn{}
+	if err := m.VerifStartWithProvider(hubS, &provider{}); err != nil {
+		return []string{"start: " + err.Error()}
+	}
+	cb := m.VerifResolveCB()
+	vals := []string{"", "1", "2", "true", "false", "TRUE", "x", "/ship/", skiOf["s1"], ownSki, string([]byte{0xff, 0xfe}), "a=b", strings.Repeat("z", 70000), "1,2,x,,-1,99999999999999999999", " ", "\x00"}
+	keys := []string{"txtvers", "id", "path", "ski", "register", "brand", "model", "type", "serial", "cat", "", "unknown"}
+	addrSets := [][]net.IP{nil, {}, {nil}, {net.IP{}}, {net.ParseIP("0.0.0.0")}, {net.ParseIP("fe80::1")}, {net.ParseIP("::")}, {net.IP{1, 2, 3}},
+		{net.ParseIP("192.168.1.10"), net.ParseIP("192.168.1.10")}, {net.ParseIP("2001:db8::1"), nil, net.ParseIP("10.0.0.7")}}
+	ports := []int{-1, 0, 1, 65535, 65536, 1 << 30}
+	x := uint32(seed*2654435761 + 12345)
+	next := func(n int) int { x = x*1664525 + 1013904223; return int(x>>8) % n }
+	for r := 0; r < rounds; r++ {
+		var el map[string]string
+		switch next(6) {
+		case 0:
+			el = nil
+		case 1:
+			el = map[string]string{}
+		default:
+			el = map[string]string{"txtvers": "1", "id": "id", "path": "/ship/", "ski": skiOf["s1"], "register": "true"}
+			for k := 0; k < next(5); k++ {
+				key := keys[next(len(keys))]
+				if next(4) == 0 {
+					delete(el, key)
+				} else {
+					el[key] = vals[next(len(vals))]
+				}
+			}
+		}
+		addrs := addrSets[next(len(addrSets))]
+		port := ports[next(len(ports))]
+		remove := next(3) == 0
+		name := []string{"", "n", strings.Repeat("n", 300)}[next(3)]
+		desc := fmt.Sprintf("elements=%q name=%q addrs=%v port=%d remove=%v", el, name, addrs, port, remove)
+		cr := vh.Call(3*time.Second, func() { cb(el, name, "host", addrs, port, remove) })
+		if cr.Panicked {
+			bad = append(bad, "panic: "+desc)
+		} else if cr.Hung {
+			bad = append(bad, "hang: "+desc)
+			break
+		}
+		if next(10) == 0 {
+			cr := vh.Call(3*time.Second, func() { m.RequestMdnsEntries(); _ = m.VerifEntries() })
+			if cr.Panicked || cr.Hung {
+				bad = append(bad, "panic/hang in RequestMdnsEntries after: "+desc)
+			}
+		}
+	}
+	// TXT parser on raw records
+	for _, txt := range [][]string{nil, {}, {""}, {"="}, {"=="}, {"a"}, {"=b"}, {"a="}, {string([]byte{0xff}) + "=" + string([]byte{0x00})}, {strings.Repeat("k", 70000) + "=v"}} {
+		t := txt
+		cr := vh.Call(3*time.Second, func() { _ = mdns.VerifParseTxt(t) })
+		if cr.Panicked || cr.Hung {
+			bad = append(bad, fmt.Sprintf("panic/hang in parseTxt(%q)", t))
+		}
+	}
+	return bad
+}
+
 func main() {
+	fuzz := flag.Int("fuzz", 0, "C08: number of awkward resolver inputs to feed instead of running scripts")
+	fuzzOut := flag.String("fuzzout", "", "C08: json file for the inputs that made the library panic or hang")
 	in := flag.String("scripts", "", "ndjson scripts")
 	obs := flag.String("obs", "", "ndjson observations")
 	sum := flag.String("summary", "", "summary json")
 	par := flag.Int("par", 256, "scripts in flight")
 	flag.Parse()
 	seed := vh.EnvInt("VERIF_SEED", 1)
+	if *fuzz > 0 {
+		bad := fuzzResolver(seed, *fuzz)
+		if bad == nil {
+			bad = []string{}
+		}
+		b, _ := json.Marshal(map[string]interface{}{"inputs": *fuzz, "bad": bad})
+		_ = os.WriteFile(*fuzzOut, b, 0o644)
+		fmt.Printf("mdnsmgr: %d awkward resolver inputs, %d made the library panic or hang\n", *fuzz, len(bad))
+		return
+	}
 	var scripts []*scriptT
 	if err := vh.ReadLines(*in, func(b []byte) error {
 		s := &scriptT{}
